@@ -745,6 +745,45 @@ Proof.
     intros id. rewrite cm_started_app, (inv_sync _ _ HI). apply Hs.
 Qed.
 
+(* ------------------------------------------------------------------ C16_close_concurrent *)
+Lemma nclose_app : forall a b, cm_nclose (a ++ b) = (cm_nclose a + cm_nclose b)%nat.
+Proof. intros. unfold cm_nclose. now rewrite filter_app, app_length. Qed.
+
+Lemma nclose_restarts : forall pre : list (nat * list cm_outcome),
+  cm_nclose (map (fun p => (ERestart (fst p), snd p)) pre) = 0%nat.
+Proof. induction pre as [|p pre IH]; [reflexivity|]. unfold cm_nclose in *. cbn. exact IH. Qed.
+
+Lemma nclose_unregs : forall post : list nat,
+  cm_nclose (map (fun id => (EUnregister id, @nil cm_outcome)) post) = 0%nat.
+Proof. induction post as [|p post IH]; [reflexivity|]. unfold cm_nclose in *. cbn. exact IH. Qed.
+
+Lemma run_from_app : forall cfg st a b,
+  cm_run_from cfg st (a ++ b) = cm_run_from cfg (cm_run_from cfg st a) b.
+Proof. intros. unfold cm_run_from. apply fold_left_app. Qed.
+
+(* Close() overlapping queued PeerDisappeared messages: whatever part of the queue the handler
+   still processes, before or after the stop flag is set, the shutdown is the sequential one *)
+Lemma close_concurrent : forall cfg tr pre post, 0 <= cfg_ttl cfg -> cm_nclose tr = 0%nat ->
+  let st' := cm_conc_close cfg (cm_run cfg tr) pre post in
+  st_panic st' = false /\ st_closed st' = true /\ st_reg st' = []
+  /\ (forall id, cm_started (st_log st') id = false)
+  /\ cm_senders cfg st' = [] /\ cm_receivers cfg st' = [].
+Proof.
+  intros cfg tr pre post Hq Hn st'.
+  set (mid := map (fun p : nat * list cm_outcome => (ERestart (fst p), snd p)) pre
+              ++ map (fun id : nat => (EUnregister id, @nil cm_outcome)) post).
+  assert (Hst : st' = cm_step cfg (cm_run cfg (tr ++ mid)) EClose []).
+  { unfold st', cm_conc_close, cm_conc_trace, cm_run.
+    rewrite app_assoc. fold mid. rewrite !run_from_app. reflexivity. }
+  assert (Hn' : cm_nclose (tr ++ mid) = 0%nat).
+  { unfold mid. rewrite !nclose_app, Hn, nclose_restarts, nclose_unregs. reflexivity. }
+  destruct (close_once cfg (tr ++ mid) [] Hq Hn') as (H1 & H2 & _ & H4 & H5 & H6).
+  rewrite Hst. repeat split; auto.
+  apply (inv_closed cfg). 
+  - apply step_inv; auto using run_inv.
+  - exact H2.
+Qed.
+
 (* ------------------------------------------------------------------ C16_retry *)
 Lemma activate_shape : forall perm o e e' s rt c, cm_activate perm o e = (e', (s, rt), c) ->
   e_inst e' = e_inst e /\ (c = [] \/ c = [CStart (e_inst e) o]).
